@@ -725,5 +725,5 @@ pub fn run(run: &Run) {
     }    // E5: state hidden outside the parser object (thread-locals, statics): every ordered pair of
     // calls over all pipelines and formats, each pair on a brand-new thread, against fresh-process baselines
     run.rule("call histories: every ordered pair of (pipeline, format, input) calls on a brand-new thread vs the same call in a fresh process");
-    crate::history::explore(run, "C08", &history_ops(), 2, &[]);
+    crate::history::explore(run, "C08", &crate::history::numbered(history_ops()), 2, &[]);
 }
